@@ -2,7 +2,7 @@
 Props/C10.lean — property C10: types documented as goroutine-safe are free of data races.
 
 Model: Model/Lockset.lean (abstract lock semantics, happens-before, access table, `raceFree`).
-Table: Gen/Accesses.lean — REGENERATED from /repo by go/extract/accesses.go on every run
+Table: Gen/Accesses.lean — REGENERATED from /repo by go/extract/accesses/accesses.go on every run
 (one row per read/write site of a field of a goroutine-safe type, with the must-lockset).
 Lemmas: Lemmas/Lockset.lean.
 
